@@ -216,6 +216,26 @@ Proj(v) ==
    q |-> IF IsStr(v) THEN NumView(v.s) ELSE "",
    k |-> v.t = "l"]
 
+(***************************************************************************)
+(* Derived read operations.  They add no state and no observation of their *)
+(* own: each is a function of Proj(v), and the harness checks them as laws *)
+(* at EVERY node it projects (harness/common/project.hpp: derivedReads):   *)
+(*  - v | dflt (operator|) is OrElse below, one instance per default kind  *)
+(*    (signed, unsigned, short, double, float, bool, const char*, string); *)
+(*  - serializeJson / measureJson / ostream << of a SUB-value agree, and   *)
+(*    the text of a container is Ser's recursion: brackets, members'       *)
+(*    texts in order, "," between, key ":" value for members.              *)
+(***************************************************************************)
+KindOf(v) == CASE v.t \in {"s", "l"} -> "string"
+               [] v.t = "i" -> "integer"
+               [] v.t = "f" -> "float"
+               [] v.t = "b" -> "bool"
+               [] OTHER -> "other"
+\* kinds: which default kinds the held value answers to (an integer answers to a
+\* double default, a float does not answer to an integer default)
+Answers(v, kinds) == KindOf(v) \in kinds
+OrElse(v, kinds, dflt) == IF Answers(v, kinds) THEN v ELSE dflt
+
 \* inverse of Proj on logged values (drops the decorations)
 RECURSIVE Strip(_)
 Strip(pv) == [t |-> IF pv.t = "s" /\ pv.k THEN "l" ELSE pv.t, s |-> pv.s,
